@@ -93,8 +93,14 @@ impl Array6 {
     }
 
     /// Get the current HIP accumulator value
-    pub(super) fn hip_accum(&self) -> f64 {
-        self.estimator.hip_accum()
+    /// Get the estimator state (HIP accumulator, KxQ registers, out-of-order flag)
+    pub(super) fn estimator(&self) -> &HipEstimator {
+        &self.estimator
+    }
+
+    /// Replace the estimator state, e.g. when this array is a copy of another one
+    pub(super) fn set_estimator(&mut self, estimator: HipEstimator) {
+        self.estimator = estimator;
     }
 
     /// Set value in a slot (6-bit value)
